@@ -39,7 +39,6 @@ type c13Scenario struct {
 
 const (
 	c13SigOrder   = "C13/order"
-	c13SigResidue = "C13/residue0-round-robin"
 	c13SigPool    = "C13/pool-change-reorder"
 )
 
@@ -260,6 +259,28 @@ func c13run(c *Ctx, sc c13Scenario) c13Out {
 			if !doRelease(p.links[op.L], op.N) {
 				return out
 			}
+		case "rrev":
+			// release all links completely, the link that carried the most recent message first
+			type lm struct {
+				id  int
+				max int64
+			}
+			var ls []lm
+			for _, l := range p.links {
+				m := int64(-1)
+				for _, s := range sent {
+					if s.link == l.id && s.seq > m {
+						m = s.seq
+					}
+				}
+				ls = append(ls, lm{l.id, m})
+			}
+			sort.Slice(ls, func(i, j int) bool { return ls[i].max > ls[j].max })
+			for _, x := range ls {
+				if !doRelease(p.links[x.id], 1<<30) {
+					return out
+				}
+			}
 		case "join":
 			l, err := p.addLink()
 			if err != nil {
@@ -354,10 +375,8 @@ func c13run(c *Ctx, sc c13Scenario) c13Out {
 		k := pr{s.a, s.b}
 		if l := last[k]; l != nil && l.seq > s.seq {
 			sig := c13SigOrder
-			switch {
-			case s.a%255 == 0 || s.b%255 == 0:
-				sig = c13SigResidue
-			case l.epoch != s.epoch && l.link != s.link:
+			if l.epoch != s.epoch && l.link != s.link {
+				// the pool changed between the two sends and moved the sender to another link: the listed finding
 				sig = c13SigPool
 			}
 			if _, dup := out.viol[sig]; !dup {
@@ -532,21 +551,21 @@ type c13Witness struct {
 func c13Witnesses() []c13Witness {
 	send := func(a, b uint64) c13Op { return c13Op{Kind: "send", A: a, B: b, Keep: true} }
 	rel := func(l, n int) c13Op { return c13Op{Kind: "release", L: l, N: n} }
+	rrev := c13Op{Kind: "rrev"} // newest link first: the most adversarial delivery order
 	return []c13Witness{
-		// D13 sender side: id 1020 = 4*255 -> order byte 0 -> round robin over 3 links; link 0 delivered first
-		{"D13-sender-1020-pool3", c13SigResidue, c13Scenario{Pool: 3, Ops: []c13Op{
-			send(1020, 1005), send(1020, 1005), send(1020, 1005), send(1020, 1005), send(1020, 1005), send(1020, 1005),
-			rel(0, 9), rel(2, 9), rel(1, 9)}}},
-		// pool change: sender 1022 -> 2 (mod 255): link 2%2=0, after a join 2%3=2
-		{"pool-join-renumbers", c13SigPool, c13Scenario{Pool: 2, Ops: []c13Op{
-			send(1022, 1005), send(1022, 1005), {Kind: "join"}, send(1022, 1005), send(1022, 1005), rel(2, 9), rel(0, 9)}}},
-		// link loss: pool [0,1,2], sender 1021 -> 1: link 1; drop index 1 -> pool [0,2]: 1%2=1 -> link 2
-		{"pool-drop-renumbers", c13SigPool, c13Scenario{Pool: 3, Ops: []c13Op{
-			send(1021, 1005), {Kind: "drop", L: 0}, send(1021, 1005), rel(2, 9), rel(1, 9), rel(0, 9)}}},
-		// D13 receiver side: id 1020 -> wire byte 0 -> the frames of ONE link are spread over the receive queues;
+		// D13 (repaired by 02d55f9) sender side: id 1020 = 4*255 had order byte 0 -> round robin over 3 links
+		{"D13-sender-1020-pool3", c13SigOrder, c13Scenario{Pool: 3, Ops: []c13Op{
+			send(1020, 1005), send(1020, 1005), send(1020, 1005), send(1020, 1005), send(1020, 1005), send(1020, 1005), rrev}}},
+		// D13 receiver side: id 1020 had wire byte 0 -> the frames of ONE link were spread over the receive queues;
 		// the worker of the first frame's queue is slow
-		{"D13-receiver-1020", c13SigResidue, c13Scenario{Pool: 1, Stall: true, Hold: []int64{0}, Ops: []c13Op{
+		{"D13-receiver-1020", c13SigOrder, c13Scenario{Pool: 1, Stall: true, Hold: []int64{0}, Ops: []c13Op{
 			send(1001, 1020), send(1001, 1020), send(1001, 1020), rel(0, 9)}}},
+		// pool change (listed finding F2): three senders with consecutive order bytes; a join changes order % len(pool)
+		{"pool-join-renumbers", c13SigPool, c13Scenario{Pool: 2, Ops: []c13Op{
+			send(1021, 1005), send(1022, 1005), send(1023, 1005), {Kind: "join"}, send(1021, 1005), send(1022, 1005), send(1023, 1005), rrev}}},
+		// link loss: pool[i] = pool[0]; pool = pool[1:] renumbers the links
+		{"pool-drop-renumbers", c13SigPool, c13Scenario{Pool: 3, Ops: []c13Op{
+			send(1021, 1005), send(1022, 1005), send(1023, 1005), {Kind: "drop", L: 0}, send(1021, 1005), send(1022, 1005), send(1023, 1005), rrev}}},
 	}
 }
 
